@@ -12,12 +12,17 @@ PROP_FILE = "Properties/C15.v"
 
 TRUSTED = [
     "translator/c15.py (ipc_kernel guards + 3x3 literal, the statement of simple_collection, the mask assignment of "
-    "apply_simple_full_well_capacity, both branches of apply_qe -> Gen_C15.src_*; fails closed on any other shape)",
+    "apply_simple_full_well_capacity, both branches of apply_qe, the argument-or-characteristics selection and the "
+    "guards of simple_full_well and simple_conversion, the range checks and the capacity selection of cdm and the "
+    "keywords it hands to run_cdm_* -> Gen_C15.src_*; fails closed on any other shape)",
     "correspondence harness: harness/props/c15.py generators, harness/drivers/c15.py, float.hex() -> exact rationals; "
     "frames are transposed to per-pixel species lists (persistence) and to lines in transfer order (CDM) in Python",
     "modelled, not verified: numpy/numba elementwise float64 arithmetic is exact on the generated dyadic inputs "
     "(bit budget enforced by the generator), numba fastmath reassociation is harmless on exact values, "
-    "array.astype(int) truncates toward zero, np.random.binomial returns a value in [0, n]",
+    "array.astype(int) truncates toward zero, np.random.binomial returns a value in [0, n], all n for p = 1 and 0 for "
+    "p = 0; np.floor_divide(position, pixel size) is the floor of the exact quotient on the generated dyadic positions; "
+    "pandas keeps the rows of the particle frame (concat) - the particle frame itself is not modelled, only the "
+    "sequence of add_charge_array / add_charge calls and the re-binned array",
     "astropy.convolve_fft (FFT rounding; kernel normalisation is the identity for weights summing to one): compared "
     "with relative tolerance 1e-9 on the implementation side only",
     "CDM: exp / pow are abstract range-constrained factors in the theorem and a**beta is taken as a * a**(beta-1); "
@@ -29,8 +34,10 @@ TRUSTED = [
 ASSUMPTIONS = [
     "documented ranges: frames >= 0; 0 <= QE <= 1; fwc >= 0; IPC couplings accepted by ipc_kernel's guards; persistence: "
     "delta_t >= 0, time constants > 0, densities/proportions/density map in [0,1], capacities >= 0, trapped charge >= 0, "
-    "equally long parameter lists, at least one species; CDM: 0 <= beta <= 1, 0 <= vg <= 1, 0 <= fwc <= 1e7, "
-    "0 <= t <= 10, tr > 0, nt >= 0, sigma >= 0",
+    "equally long parameter lists, at least one species; CDM: 0 <= beta <= 1, 0 < vg <= 1, 0 < fwc <= 1e7, "
+    "0 <= t <= 10 (the wrapper's checks, read from the source), tr > 0, nt >= 0, sigma >= 0; collection: non-negative "
+    "charge arrays, particles of type 'e' positioned inside the detector area; full well / QE: the model argument "
+    "overrides the detector characteristics (0.0 is a given argument)",
     "QE sampling: the draw is any function with 0 <= binomial(n, q) <= n (Section hypothesis)",
     "CDM theorem: arithmetic over Q (exact), not binary64; traps empty at the start of a call",
 ]
@@ -391,12 +398,35 @@ def gen_cdm(r, exact=False, contrast=None):
     if direction == "parallel" and r.random() < 0.3:
         p["inj"], p["ninj"] = True, shape[0]
     k = r.random() if not contrast else 1.0
-    if k < 0.06:      # the wrapper's own defaults for volume and period
+    # the zero divisors: through the wrapper only (its range checks are the property's documented ranges)
+    if k < 0.05:      # the wrapper's own defaults for volume and period
         p["vg"], p["t"], p["corner"] = 0.0, 0.0, "vg=0,t=0"
-    elif k < 0.10:
+    elif k < 0.08:
         p["vg"], p["corner"] = 0.0, "vg=0"
-    elif k < 0.13 and p["beta"] > 0:
+    elif k < 0.11 and p["beta"] > 0:
         p["fwc"], p["corner"] = 0.0, "fwc=0"
+    elif k < 0.13:
+        p["fwc"], p["beta"], p["corner"] = 0.0, 0.0, "fwc=0,beta=0"
+    elif k < 0.16:    # other values the wrapper must refuse
+        which = r.choice(["vg>1", "beta>1", "beta<0", "fwc>1e7", "t>10", "t<0", "vg<0"])
+        p["corner"] = which
+        if which == "vg>1":
+            p["vg"] = 2.0
+        elif which == "beta>1":
+            p["beta"] = 1.5
+        elif which == "beta<0":
+            p["beta"] = -0.25
+        elif which == "fwc>1e7":
+            p["fwc"] = 1.0e8
+        elif which == "t>10":
+            p["t"] = 20.0
+        elif which == "t<0":
+            p["t"] = -1.0
+        else:
+            p["vg"] = -1.0e-10
+    if "corner" in p:
+        p["path"] = "model"
+        p.setdefault("times", 1)
     return p
 
 
@@ -413,7 +443,14 @@ def corpus_cases():
              dmap=None, cmap=None, pix0=[100.0], trap0=[[0.0], [0.0]], steps=[dict(dt=1.0, add=[0.0])], fk="corpus")
     w2 = dict(w, full=True, dmap=[1.0], path="model")
     w3 = dict(w, taus=[1.0], dens=[0.5], trap0=[[0.0]], caps=[8.0])      # one species, clipped: conserved
-    cs = [w, w2, w3]
+    # the former C15-cdm-nan inputs (the wrapper's own defaults; zero capacity with beta > 0)
+    n1 = dict(kind="cdm", direction="parallel", frame=[[0.0], [0.0], [11496.0], [0.0]], fk="corpus", exact=False,
+              beta=0.3, fwc=100000.0, vg=0.0, t=0.0, vth=1.0e7, tr=[0.03], nt=[2.0e12], sigma=[1.0e-15], path="model",
+              times=1, corner="vg=0,t=0")
+    n2 = dict(n1, direction="serial", frame=[[0.0, 0.0, 11496.0, 0.0]], vg=1.0e-10, t=1.0e-3, fwc=0.0, corner="fwc=0")
+    w4 = dict(w, taus=[1.0, 1.0, 4.0], dens=[0.5, 0.25, 0.125], trap0=[[0.0], [0.0], [0.0]], caps=[8.0, 4.0, 2.0],
+              steps=[dict(dt=2.0, add=[0.0]), dict(dt=2.0, add=[50.0])])
+    cs = [w, w2, w3, w4, n1, n2]
     d = core.VERIF / "harness" / "corpus" / "C15"
     if d.exists():
         for f in sorted(d.glob("*.json")):
@@ -521,6 +558,8 @@ def emit_case(c, o) -> str:
         par = c["direction"] == "parallel"
         fr = c["frame"]
         lin = [list(col) for col in zip(*fr)] if par else fr
+        if bad and c["path"] == "model" and o.get("raise") == "ValueError":
+            return f"KCdmG {q(c['vg'])} {q(c['beta'])} {q(c['fwc'])} {q(c['t'])} true"
         if bad or "nonfinite" in o:
             return f"KCdm {qll(lin)} nil"
         if c.get("exact") and all(math.isfinite(fx(v)) for v in o["gs"] + o["pcs"] + o["rs"]):
@@ -554,6 +593,8 @@ def classify(c, o, as_modelled: bool):
     if k == "qe" and c["path"] == "select":
         return "qe_sources", dict(kind=k, sampling=c["sampling"], source=c["src"], raised=("raise" in o),
                                   arg_zero=(c["arg"] == 0)), None
+    if k == "cdm" and "raise" in o:
+        return "cdm_refused", dict(kind=k, error=o["raise"], corner=c.get("corner", "none")), None
     if "raise" in o:
         return "raises", dict(kind=k, error=o["raise"]), None
     if k == "collect":
@@ -759,6 +800,8 @@ def run(ctx: Ctx):
                 qv = c["q"]
                 ctx.dist("qe_value", "0" if qv == 0 else "1" if qv == 1 else "1/2" if qv == 0.5 else
                          "small" if qv < 0.1 else "near 1" if qv > 0.99 else "other")
+        if c["kind"] == "cdm" and "corner" in c:
+            ctx.dist("cdm_corner", c["corner"] + (" -> refused" if "raise" in o else " -> ran"))
         if "raise" in o:
             ctx.dist("raised", c["kind"])
         if is_nontrivial(c):
@@ -830,15 +873,18 @@ META = dict(
         "Coq theorems, for all inputs in the documented ranges, over exact-arithmetic (Q) per-pixel models of the code: "
         "collection adds exactly the charge; QE without sampling is exactly q*p in [0,p], with sampling (any draw with a "
         "binomial's range) an integer in [0, floor p]; full well = min and idempotent; the nine IPC weights read from "
-        "the source sum to 1 for all couplings and a constant frame of any shape is a fixed point; persistence with any "
-        "number of trap species: exact account pixel'+trapped'+lost = pixel+trapped with lost >= 0 the clipped excess of "
-        "all but the last species (so never creation, exact conservation for one species, non-negativity for all n, any "
-        "number of readouts) - the full conservation statement is REFUTED for n >= 2 by a proved witness (100 e- -> "
-        "68.75 e-) and the defect is found on the real functions; CDM (_partial): per-step 0 <= captured < pixel, "
+        "the source sum to 1 for all couplings and a constant frame of any shape is a fixed point; collection adds "
+        "exactly the generated charge whatever mixture of arrays and particles holds it (binning keeps every electron); "
+        "the full-well capacity and the quantum efficiency are the model argument when given, else the "
+        "characteristics'; persistence (model of the code repaired by the fix: commit for C15-F14) with ANY number of "
+        "trap species and any parameters: pixel'+trapped' = pixel+trapped exactly, for any number of readouts, and "
+        "nothing negative inside the documented ranges; CDM (_partial): per-step 0 <= captured < pixel, "
         "occupancy >= 0, pixel+occupancy non-increasing, lifted by induction over species, pixels and lines to any frame "
-        "in both directions, with the exp/pow factors abstract in their ranges (shown to hold for the real exp/Rpower). "
+        "in both directions and to every PREFIX of a line, with the exp/pow factors abstract in their ranges (shown to "
+        "hold for the real exp/Rpower); the wrapper's range checks, read from the source, make both divisors non-zero. "
         "The models are tied to the code by a fail-closed translator (IPC kernel and guards, collection statement, "
-        "full-well mask, QE expression) and by running the real functions on dyadic frames (exact float arithmetic) "
+        "full-well mask, QE expression, value selections and guards of simple_full_well / simple_conversion / cdm) "
+        "and by running the real functions on dyadic frames (exact float arithmetic) "
         "and comparing / judging the outputs inside Coq; for CDM with general parameters the implementation is only "
         "tested against the theorem's conclusion."),
     level_note=(
@@ -848,5 +894,5 @@ META = dict(
         "carried by the theorem (1e-9 relative tolerance on the implementation side). One theorem "
         "(C15_cdm_real_factors) uses the standard real-number axioms; all others are closed under the global context."),
     technique="Coq proof over Q models + regenerated kernel/guard definitions + in-Coq correspondence/spec evaluation",
-    design_ref="DESIGN.md section 6, C15; section 7 F14",
+    design_ref="DESIGN.md section 6, C15; section 7 F14 (fixed), C15-cdm-nan (fixed)",
 )
